@@ -53,6 +53,14 @@ CHECKS.update({
  "C17": ("3/C17", "For three busy scenarios the reference run yields every instant at which a timer or datagram was processed; close is requested at each of them and 1 ms before/after, via async_close and via Zeroconf.close from outside the loop; then a second close, 3 h of virtual time and 9 rounds of fresh traffic. Oracle: goodbyes for everything registered, sockets closed, no datagram, no listener/browser callback, no exception afterwards.",
          "Trusted: caller-thread seam for the sync API; AsyncServiceBrowser only (no OS threads)."),
 })
+CHECKS.update({
+ "C07": ("3/C07", "Iterative deviation bounding on 2- and 3-host scenarios of real instances over the simulated link: every (datagram, receiver) delivery chooses among 1 ms / 100 ms / duplicate / drop (one drop per execution), every library jitter draw between low and high; all executions with <= 2 (thorough <= 3 on the 2-host scenarios) non-default choices; browser live sets must equal what is registered 15 s after each change and lookups made from add_service must resolve the advertised data.",
+         "Trusted: virtual link (fixed 100 us loop-back); API calls sequential per instance; reported deviation bound completed."),
+ "C09": ("3/C09", "Full product grid: conflicting pointer record at -100..500 ms around the three probe instants (incl. 174/175/176 and 349/350/351) x renaming allowed or not x pre-populated chains of taken '-N' names x second conflict during the renamed cycle x address mix x custom TTLs; the conflict is delivered by a scripted peer or by a second real instance owning the name behind a link with one-way delay 1/50/100/150 ms; probe/announcement schedule and content, exception or final name, no record of the conflicting name ever sent.",
+         "Trusted: equality with the last probe check accepts both outcomes; the host answering its own looped-back third probe is tolerated."),
+ "C15": ("3/C15", "Adversarial corpora (all single edits of seed messages, compression graphs, chain/stack families, oversize datagrams, every echo-hazard label length 1..63 x 5 fill bytes in legacy-unicast queries) delivered to a busy real instance: fresh world per datagram from 4 source tuples, streams of 50 per world, all ordered pairs of class representatives; afterwards the loop's exception handler must be empty, a canary query answered and a canary announcement delivered to the browser.",
+         "Trusted: exceptions leaving datagram_received are reported to the loop handler like a selector transport does; random byte strings are not sampled."),
+})
 NOT_YET = {}
 
 def main():
